@@ -204,4 +204,4 @@ def run(ctx: vlib.Ctx):
                 X.corr(ctx, {"text": text}, "literal zones (path, content, tag, fence) / exception", zm, zi)
     tool_pipelines(ctx, findings, res[: ctx.budget(120, 1200)])
     ctx.assumptions = ["file-based pipelines are driven with newline='' so that no universal-newline translation is involved (F18 candidate, outside the listed alphabet)",
-                       "proved: normaliser/emitter zone lemmas (Props/C05) and the lexer-level whole-text theorem for every content, marker and tag (C05zones: tokens carry the content verbatim; finding C05N1 located in the lexer); the parser half and the tool routes are decided by the zone oracle and the correspondence"]
+                       "proved: normaliser/emitter zone lemmas (Props/C05) and the lexer-level whole-text theorem for every content, marker and tag (C05zones: tokens carry the content verbatim; finding C05N1 located in the lexer), the document round trip with the exact C05N1 guard and untouched neighbours (C05roundtrip); zones after other lines / inside blocks at text level (unless C05tree is listed under coverage.theorems), zones in lists / META and the tool routes are decided by the zone oracle and the correspondence"]
